@@ -7,7 +7,7 @@
      src/client/pool/key.rs      TokenMap::insert, UriKey (scheme, authority)
      src/client/pool/service.rs  ConnectionPoolService::{call, connect_to}, ResponseFuture::poll
      src/client/conn/connector.rs Connector::poll_connector (staging; `shareable` is constantly false)
-   after the repairs D3 (9e0bb9e), D5 (1bf31d6), D7 (9bebd46), D4 (ab48742), D15 (f10f40c), D16.  D6 is still in the code
+   after the repairs D3 (9e0bb9e), D5 (1bf31d6), D7 (9bebd46), D4 (ab48742), D15 (f10f40c), D16 (fecaf88), D17 (bca9b9b).  D6 is still in the code
    and therefore in the model.
    One [op] is one atomic step of a single-threaded schedule: the pool mutex makes
    checkout/push/pop/cancel atomic, and one poll of a request future is atomic on a current-thread
@@ -60,8 +60,10 @@ Inductive task := TWhenReady (c : nat) (tok : nat) | TDelayed (rid : nat) (tok :
 
 (* a queued waiter: request id, and whether it waits for the attempt that was in progress when it was
    created (Waiter::pending_attempt) *)
-Record ptok := mkTok { p_idle : list (nat * N); p_waiting : list (nat * bool); p_marker : bool }.
-Definition empty_tok := mkTok [] [] false.
+(* [p_marker]: the in-progress mark of a multiplexed connection attempt, with the id of the attempt
+   (= the request that set it) so that only its owner clears it (D17 repaired) *)
+Record ptok := mkTok { p_idle : list (nat * N); p_waiting : list (nat * bool); p_marker : option nat }.
+Definition empty_tok := mkTok [] [] None.
 
 Record config := mkCfg { g_pool : bool; g_timeout : option N; g_max_idle : nat; g_cont : bool;
                          g_uris : list (option key) }.
@@ -215,7 +217,7 @@ Fixpoint walk_waiters (t c : nat) (share : bool) (ws : list (nat * bool)) s : li
 
 (* PoolInner::push (with the max_idle_per_host bound, D7 repaired) *)
 Definition pool_push (max_idle : nat) (t c : nat) s :=
-  let s := if share_of s c then upd_tok t (set_marker false) s else s in   (* only a shareable connection ends the attempt *)
+  let s := if share_of s c then upd_tok t (set_marker None) s else s in   (* only a shareable connection ends the attempt *)
   let '(rest, moved, s) := walk_waiters t c (share_of s c) (p_waiting (get_tok s t)) s in
   let s := upd_tok t (set_waiting rest) s in
   if moved then s
@@ -242,15 +244,19 @@ Fixpoint release_pending (ws : list (nat * bool)) s : list (nat * bool) * state 
       else let '(rest', s') := release_pending rest s in ((w, pending) :: rest', s')
   end.
 
-(* PoolInner::cancel_connection (D4 repaired): called by the owner of the mark only; if the mark was
-   still there the attempt ended without a shareable connection and the checkouts waiting for it
-   are released *)
-Definition pool_cancel t s :=
-  if p_marker (get_tok s t) then
-    let s := upd_tok t (set_marker false) s in
-    let '(rest, s) := release_pending (p_waiting (get_tok s t)) s in
-    upd_tok t (set_waiting rest) s
-  else s.
+(* PoolInner::cancel_connection (D4, D17 repaired): called by the owner [rid] of an attempt only; if
+   its mark is still there the attempt ended without a shareable connection and the checkouts waiting
+   for it are released; a mark set by a later attempt is left alone *)
+Definition pool_cancel t rid s :=
+  match p_marker (get_tok s t) with
+  | Some o =>
+      if Nat.eqb o rid then
+        let s := upd_tok t (set_marker None) s in
+        let '(rest, s) := release_pending (p_waiting (get_tok s t)) s in
+        upd_tok t (set_waiting rest) s
+      else s
+  | None => s
+  end.
 
 Fixpoint drop_all (l : list (nat * N)) s :=
   match l with [] => s | (c, _) :: t => drop_all t (drop_conn c s) end.
@@ -399,7 +405,7 @@ Definition checkout_drop (cfg : config) (rid : nat) (ck : checkout) s : state :=
   let started := match get_dial s rid with Some d => match d_stage d with DNew => false | _ => true end | None => false end in
   let delayed := match k_inner ck with IDelayDrop => started | _ => false end in
   let s := if delayed then spawn (TDelayed rid t (k_owner ck)) s
-           else if has_pool && k_owner ck then pool_cancel t s else s in
+           else if has_pool && k_owner ck then pool_cancel t rid s else s in
   let '(_, s) := rx_drop ck s in
   match k_inner ck with
   | IConnecting | IDelayed => upd_dial rid (d_set_stage DGone) s
@@ -432,13 +438,13 @@ Definition do_issue (cfg : config) (u : nat) (p : proto) s :=
         match found with
         | Some c => add (RCheckout (new_ck t WIdle IConnected (Some c) false true)) (mkDial DGone p k (Some k) None) s
         | None =>
-            let pending := p_marker (get_tok s t) in
+            let pending := match p_marker (get_tok s t) with Some _ => true | None => false end in
             let s := upd_tok t (fun q => set_waiting (p_waiting q ++ [(rid, pending)]) q) s in
             if pending then
               add (RCheckout (new_ck t WConnecting IWaiting None false false)) (mkDial DGone p k (Some k) None) s
             else
               let own := match p with H2 => true | H1 => false end in
-              let s := if own then upd_tok t (set_marker true) s else s in
+              let s := if own then upd_tok t (set_marker (Some rid)) s else s in
               add (RCheckout (new_ck t WIdle (if g_cont cfg then IDelayDrop else IConnecting) None own false))
                   (mkDial DNew p k (Some k) None) s
         end
@@ -545,10 +551,10 @@ Definition run_task (cfg : config) (tid : nat) s :=
       | CPending => s
       | CReady (inl c) =>
           let '(p, s) := register cfg t c s in
-          let s := if g_pool cfg && negb (Nat.eqb t 0) && own then pool_cancel t s else s in
+          let s := if g_pool cfg && negb (Nat.eqb t 0) && own then pool_cancel t rid s else s in
           pooled_drop p (finish_task tid s)
       | CReady (inr _) =>
-          let s := if g_pool cfg && negb (Nat.eqb t 0) && own then pool_cancel t s else s in
+          let s := if g_pool cfg && negb (Nat.eqb t 0) && own then pool_cancel t rid s else s in
           finish_task tid s
       end
   end.
@@ -592,9 +598,10 @@ Fixpoint snaps_from s (t : nat) (l : list ptok) : list snap :=
   | [] => []
   | p :: rest =>
       let live := count_live s (p_waiting p) in
-      let sn := mkSnap t (map fst (p_idle p)) live (List.length (p_waiting p) - live) (p_marker p) in
+      let mk := match p_marker p with Some _ => true | None => false end in
+      let sn := mkSnap t (map fst (p_idle p)) live (List.length (p_waiting p) - live) mk in
       let tail := snaps_from s (S t) rest in
-      match p_idle p, p_waiting p, p_marker p with
+      match p_idle p, p_waiting p, mk with
       | [], [], false => tail
       | _, _, _ => sn :: tail
       end
